@@ -9,14 +9,14 @@ ID = "C17"
 LEVEL = "exploration"
 RULE = ("cases = (failure kind, call chain): each defined dynamic failure (assert, get nil, list / string index range, zero "
         "divisor of each numeric kind for / and %, overflow of int / bigint / byte arithmetic and negation, shift amount, "
-        "list remove range) is placed at call depth 0-6 below a chain mixing plain functions, closures, methods, list.map "
-        "callbacks and functions of an imported module, optionally under if / while / from blocks, with output printed on the "
+        "list remove range, string offsets inside a character, conversion and radix ranges, a recursion without a base case) is placed at call depth 0-6 below a chain mixing plain functions, closures, methods, list.map "
+        "callbacks and functions of an imported module - or the whole chain runs at the top level of a module WHILE it is being imported -, optionally under if / while / from blocks, with output printed on the "
         "way down; enumerated part = every kind x every single-element chain kind x depth {0,1,2}; random part = Hypothesis "
         "chains. Oracle: stdout = the prescribed lines, exit status 1 (not 101/134), the FATAL RUNTIME ERROR banner, and a "
         "trace whose function entries are exactly the active chain innermost first down to __module__ and whose block-frame "
         "entries (<if>/<else>/<while>) are exactly the blocks open at the failure - loops completed by break / continue before the "
         "failure must leave nothing behind (native entries dropped); labels of function values are learnt from `print f` lines; a failed assert must name "
-        "file:line:col of that assert. Non-trivial = depth >= 2 or a callback / method / import in the chain; distinct by "
+        "file:line:col of that assert. A second small family - callbacks of filter / map that change the collection being walked - may complete or fail, but must not end in an internal panic. Non-trivial = depth >= 2 or a callback / method / import in the chain; distinct by "
         "(kind, chain, wrappers)")
 ASSUMPTIONS = ["function labels are read from the program's own `print <function>` output instead of modelling id assignment",
                "dev-profile build"]
@@ -58,6 +58,9 @@ KINDS = {
     "to-byte-conversion": ([("decl", "big", None, I(300), ())], ("decl", "v", None, ("mcall", ("bin", "+", V("big"), V("a")), "to_byte", []), ())),
     "to-int-conversion": ([("decl", "bb", "bigint", ("lit", "bigint", 2 ** 40), ())], ("decl", "v", None, ("mcall", ("bin", "+", V("bb"), V("a")), "to_int", []), ())),
     "pow-negative": ([], ("decl", "v", None, ("mcall", ("bin", "+", V("a"), I(1)), "pow", [("bin", "-", I(0), V("a"))]), ())),
+    # a recursion without a base case: must end as a reported run-time error, not as an overflow of the interpreter's own stack
+    "unbounded-recursion": ([("decl", "rec", None, ("fn", [("n", "int")], "int", [("return", ("bin", "+", ("selfcall", [("bin", "+", V("n"), I(1))]), I(1)))]), ())],
+                            ("decl", "v", None, ("call", V("rec"), [V("a")]), ())),
     "list-remove": ([("decl", "l", ("list", "int"), ("list", [I(1)]), ())], ("decl", "v", None, ("mcall", V("l"), "remove", [("bin", "+", V("a"), I(5))]), ())),
 }
 ELEMS = ["F", "C", "M", "CB"]
@@ -119,6 +122,9 @@ def build(case):
     pk = case.get("prefix", "none")
     failing_body = setup + prefix_loop(pk, "f") + [("print", S("pre-failure")), failing, ("print", S("unreachable"))]
     # innermost first
+    at_import = bool(case.get("import_time"))      # everything lives in lib.ms and runs while main.ms imports it
+    if at_import:
+        split = 0
     for idx in range(d - 1, -1, -1):
         where = "lib" if idx >= split else "main"
         ek = chain[idx]
@@ -135,12 +141,14 @@ def build(case):
         else:
             if ek == "C":
                 body = [("print", ("bin", "+", S("cap="), V("captured")))] + body
-            exported = where == "lib" and idx == split      # exports require an explicit type
+            exported = where == "lib" and idx == split and not at_import     # exports require an explicit type
             files[where].append(("decl", name, ("fn", ["int"], "int") if exported else None, ("fn", [("a", "int")], "int", body), ("export",) if exported else ()))
             labels_to_print[where].append(name)
     main = [("decl", "captured", None, I(7), ())]
     lib = [("decl", "captured", None, I(7), ())]
-    if split < d:
+    if at_import:
+        main = [("rawstmt", "import lib"), ("print", S("import returned"))]
+    elif split < d:
         if chain[split] == "M":
             raise ValueError("the entry of the library chain must be a function")
         main.append(("rawstmt", "import e%d from lib" % split))
@@ -150,15 +158,16 @@ def build(case):
         lib += [("print", S("L:" + nm)), ("print", V(nm))]
     for nm in labels_to_print["main"]:
         main += [("print", S("L:" + nm)), ("print", V(nm))]
-    main.append(("print", S("@start")))
-    main.append(("decl", "a", None, I(1), ()))
+    driver = lib if at_import else main
+    driver.append(("print", S("@start")))
+    driver.append(("decl", "a", None, I(1), ()))
     if d == 0:
         top = wrap(case["inner_wrap"], failing_body)
     else:
-        nxt = "IMP" if split == 0 else chain[0]
+        nxt = "IMP" if split == 0 and not at_import else chain[0]
         top = wrap(case["wrap"], prefix_loop(pk, "m") + call_next(nxt if nxt != "IMP" else "F", 0, V("a")) + [("print", S("back"))])
-    main += top
-    main.append(("print", S("@end")))
+    driver += top
+    driver.append(("print", S("@end")))
     # expectations
     ticks = ["tick"] if pk == "while-continue" else []
     expect = ["@start"]
@@ -183,23 +192,48 @@ def build(case):
             exp_chain.append({"fn": "e%d" % idx})
     for b in BLOCK_OF[case["inner_wrap"] if d == 0 else case["wrap"]]:
         exp_chain.append({"block": b})
+    if at_import:
+        exp_chain.append({"label": "lib.mmm#__module__"})
     exp_chain.append({"label": "main.mmm#__module__"})
     msrc, mmarks = ms.program(main)
     files_out = {"p/q/r/main.ms": msrc}
     assert_pos = None
-    if split < d:
+    if split < d or at_import:
         lsrc, lmarks = ms.program(lib)
         files_out["p/q/r/lib.ms"] = lsrc
     if kind.startswith("assert"):
-        if d > 0 and d - 1 >= split:
+        if (d > 0 and d - 1 >= split) or at_import:
             l, c = lmarks[id(failing)]
             assert_pos = "lib.ms:%d:%d" % (l, c)
         else:
             l, c = mmarks[id(failing)]
             assert_pos = "main.ms:%d:%d" % (l, c)
     sc = {"files": files_out, "cwd": "p/q/r", "steps": [{"id": "run", "argv": ["mscript", "run", "main.ms", "-q"]}],
-          "asserts": [{"kind": "c17_report", "step": "run", "lines": expect, "chain": exp_chain, "assert_pos": assert_pos}]}
+          "asserts": [{"kind": "c17_report", "step": "run", "lines": expect, "chain": exp_chain, "assert_pos": assert_pos, "innermost_repeats": kind == "unbounded-recursion"}]}
     return sc
+
+
+# programs whose callbacks change the very collection a built-in is walking: whatever the outcome (completion or a reported
+# run-time error), it must not be an internal panic / abort
+NOPANIC = {
+    "filter-callback-clears": "xs: [int...] = [1, 2, 3]\nys = xs.filter(fn(x: int) -> bool {\n\txs.clear()\n\treturn true\n})\nprint ys.len()\n",
+    "filter-callback-removes": "xs: [int...] = [1, 2, 3, 4]\nys = xs.filter(fn(x: int) -> bool {\n\tif x == 2 {\n\t\txs.remove(0)\n\t}\n\treturn x %% 2 == 0\n})\nprint ys.len()\n".replace("%%", "%"),
+    "filter-callback-removes-last": "xs: [int...] = [1, 2, 3]\nys = xs.filter(fn(x: int) -> bool {\n\tif xs.len() > 1 {\n\t\txs.remove(xs.len() - 1)\n\t}\n\treturn true\n})\nprint ys.len()\n",
+    "filter-callback-pushes": "xs: [int...] = [1, 2]\nys = xs.filter(fn(x: int) -> bool {\n\tif xs.len() < 6 {\n\t\txs.push(x + 10)\n\t}\n\treturn true\n})\nprint ys.len()\n",
+    "map-callback-clears": "xs: [int...] = [1, 2, 3]\nys = xs.map(fn(x: int) -> int {\n\txs.clear()\n\treturn x * 2\n})\nprint ys.len()\n",
+    "map-callback-removes": "xs: [int...] = [1, 2, 3, 4]\nys = xs.map(fn(x: int) -> int {\n\tif xs.len() > 2 {\n\t\txs.remove(0)\n\t}\n\treturn x\n})\nprint ys.len()\n",
+    "map-callback-pushes": "xs: [int...] = [1, 2]\nys = xs.map(fn(x: int) -> int {\n\tif xs.len() < 6 {\n\t\txs.push(x + 10)\n\t}\n\treturn x\n})\nprint ys.len()\n",
+    "filter-in-filter-clears-outer": "xs: [int...] = [1, 2, 3]\nzs: [int...] = [5, 6]\nys = xs.filter(fn(x: int) -> bool {\n\tws = zs.filter(fn(z: int) -> bool {\n\t\txs.clear()\n\t\treturn true\n\t})\n\treturn ws.len() > 0\n})\nprint ys.len()\n",
+}
+
+
+def nopanic_scenario(name):
+    src = "print \"@start\"\n" + NOPANIC[name] + "print \"@end\"\n"
+    return {"files": {"p/q/r/main.ms": src}, "cwd": "p/q/r", "steps": [{"id": "run", "argv": ["mscript", "run", "main.ms", "-q"]}],
+            "asserts": [{"kind": "exit", "step": "run", "in": ["ok", "error"]}, {"kind": "stderr_lacks", "step": "run", "value": "panicked at"},
+                        {"kind": "stdout_has", "step": "run", "value": "@start"},
+                        {"kind": "any_of", "options": [[{"kind": "exit", "step": "run", "in": ["ok"]}, {"kind": "stdout_has", "step": "run", "value": "@end"}],
+                                                       [{"kind": "exit", "step": "run", "in": ["error"]}, {"kind": "stderr_has", "step": "run", "value": "MSCRIPT INTERPRETER FATAL RUNTIME ERROR"}]]}]}
 
 
 FNPTR = re.compile(r"^function ptr (\S+?)\(\)")
@@ -241,6 +275,14 @@ def a_report(a, res, ctx):
         exp = []
         for e in a["chain"]:
             exp.append(e["block"] if "block" in e else (e["label"] if "label" in e else labels.get(e["fn"], "<label of %s not printed>" % e["fn"])))
+        if a.get("innermost_repeats"):
+            # the innermost frames are an unknown number (>= 2) of activations of one recursive function
+            k = 0
+            while k < len(got) and got[k] == got[0]:
+                k += 1
+            if k < 2 or got[0] in exp:
+                out.append("trace: expected at least two innermost activations of the recursive function, got %r" % got[:6])
+            got = got[k:]
         fns = lambda l: [x for x in l if x not in SPECIAL]
         if fns(got) != fns(exp):
             out.append("trace: expected %r got %r" % (fns(exp), fns(got)))
@@ -253,17 +295,28 @@ def a_report(a, res, ctx):
 
 
 def describe(case):
-    return "%s @ %s%s wrap=%s/%s prefix=%s" % (case["kind"], "".join(case["chain"]) or "module", (" lib-from-%d" % case["split"]) if case["split"] < len(case["chain"]) else "",
+    if "nopanic" in case:
+        return "nopanic:" + case["nopanic"]
+    return "%s @ %s%s wrap=%s/%s prefix=%s" % (case["kind"], "".join(case["chain"]) or "module", (" during-import" if case.get("import_time") else (" lib-from-%d" % case["split"]) if case["split"] < len(case["chain"]) else ""),
                                                 case["wrap"], case["inner_wrap"], case.get("prefix", "none"))
 
 
 def check(case):
+    if "nopanic" in case:
+        sc = nopanic_scenario(case["nopanic"])
+        res, fails, _ = scenario.execute(sc)
+        r = CaseResult(nt_keys=["nopanic:" + case["nopanic"]], labels=["kind=callback-mutates-its-collection", "outcome=" + res["run"].klass], sample={"case": case["nopanic"]})
+        if fails:
+            r.failure = fail("%s: %s" % (case["nopanic"], "; ".join(fails)), "C17:nopanic:%s:%s" % (case["nopanic"], res["run"].klass), sc, case=case)
+        return r
     sc = build(case)
     d = len(case["chain"])
     nt = d >= 2 or any(e in ("M", "CB") for e in case["chain"]) or case["split"] < d
     labels = ["kind=" + case["kind"], "depth=%d" % d] + ["elem=" + e for e in set(case["chain"])]
     if case["split"] < d:
         labels.append("imported-module")
+    if case.get("import_time"):
+        labels.append("failure-during-import")
     r = CaseResult(nt_keys=[describe(case)] if nt else [], labels=labels, sample={"case": describe(case), "main.ms": sc["files"]["p/q/r/main.ms"][-600:]})
     res, fails, _ = scenario.execute(sc)
     if fails:
@@ -279,7 +332,7 @@ def check(case):
 
 
 def enumerated(tier, seed):
-    cases = []
+    cases = [{"nopanic": n} for n in NOPANIC]
     for kind in KINDS:
         cases.append({"kind": kind, "chain": [], "split": 0, "wrap": "none", "inner_wrap": "none"})
         for w in ("if", "while"):
@@ -290,6 +343,10 @@ def enumerated(tier, seed):
                 cases.append({"kind": kind, "chain": [e, e2], "split": 2, "wrap": "if", "inner_wrap": "from"})
         cases.append({"kind": kind, "chain": ["F", "F"], "split": 1, "wrap": "none", "inner_wrap": "none"})
         cases.append({"kind": kind, "chain": ["F", "CB", "M"], "split": 1, "wrap": "while", "inner_wrap": "else"})
+        # the failure happens WHILE main.ms imports lib.ms: at lib's top level, or in what that top-level code calls
+        cases.append({"kind": kind, "chain": [], "split": 0, "wrap": "none", "inner_wrap": "none", "import_time": True})
+        cases.append({"kind": kind, "chain": ["F"], "split": 0, "wrap": "none", "inner_wrap": "if", "import_time": True})
+        cases.append({"kind": kind, "chain": ["M", "CB"], "split": 0, "wrap": "while", "inner_wrap": "none", "import_time": True})
         for pk in PREFIXES[1:]:
             cases.append({"kind": kind, "chain": ["F"], "split": 1, "wrap": "none", "inner_wrap": "if", "prefix": pk})
             cases.append({"kind": kind, "chain": [], "split": 0, "wrap": "none", "inner_wrap": "none", "prefix": pk})
@@ -307,7 +364,11 @@ def cases_st(draw):
         split = g.int(0, d - 1)
         if chain[split] == "M":
             chain[split] = "F"
-    return {"kind": kind, "chain": chain, "split": split, "wrap": g.choice(WRAPS), "inner_wrap": g.choice(WRAPS), "prefix": g.choice(PREFIXES + ["none", "none"])}
+    case = {"kind": kind, "chain": chain, "split": split, "wrap": g.choice(WRAPS), "inner_wrap": g.choice(WRAPS), "prefix": g.choice(PREFIXES + ["none", "none"])}
+    if g.chance(12):
+        case["import_time"] = True
+        case["split"] = 0
+    return case
 
 
 def strategy(tier):
